@@ -773,6 +773,11 @@ func (e *Engine) VerifyFunc(fn *ssa.Function) (vc *VC) {
 		}
 		st.alive = vc.define("pre", "Bool", and(pres...))
 		for _, g := range fc.Ghosts {
+			for _, p := range fn.Params {
+				if p.Name() == g.Name {
+					cfail("ghost %s of %s has the name of a parameter", g.Name, fc.Ref)
+				}
+			}
 			ty := f.resolveType(g.Type, fn.Pkg.Pkg)
 			s := f.sortOf(ty)
 			var init string
